@@ -101,6 +101,7 @@ def run(res, tier):
                         res.violation(key, "parsing can reach %s in %s" % (e.name, lab), fn)
         res.samples.append({"function": lab, "paths": len(paths)})
     n_paths += check_mmap_kernel(res, E, reported)
+    n_paths += check_fits_contract(res, E, reported)
     res.distinct += n_paths
     res.extra["functions_in_scope"] = len(scope)
     res.extra["allocation_sites_checked"] = n_alloc
@@ -114,6 +115,8 @@ def run(res, tier):
     res.bounds.append("utils/archive.rs: the three functions through which every access to the memory-mapped archive goes "
                       "(Mmap::read, write, read_into) for every 64-bit position, length and mapping size: no panicking "
                       "terminator and every slice range inside the mapping")
+    res.bounds.append("utils/archive.rs: Archive::fits for every 64-bit on-disk size of an empty object implies what "
+                      "publish_replace asserts about the remainder")
     res.outside += ["the rest of utils/archive.rs: header arithmetic such as ObjectHeader::data_start (start + SIZE + name_len) "
                     "can overflow on corrupt headers in overflow-checks builds only (release builds wrap and then fail the "
                     "range check in Mmap::read); StorageRead's file fallback (Vec::with_capacity(len)) is reachable only "
@@ -121,6 +124,51 @@ def run(res, tier):
     res.rule = ("one case = one feasible path of a record parser; for every allocation call on it z3 searches for file "
                 "content that makes the requested size exceed the limit; panicking terminators and panic calls on a path are violations")
     mprop.finish_engine(res, E)
+
+
+def check_fits_contract(res, E, reported):
+    """find_empty hands an empty object to publish_replace when Archive::fits(empty.size, object_size) holds, and
+    publish_replace asserts that a remainder can hold an object header. empty.size is read from the file: for every
+    64-bit value of it (corrupt or not) `fits` must imply what the assert demands, or a corrupt size field panics."""
+    src = open(mir.os.path.join(mir.REPO, "src/utils/archive.rs")).read()
+    m = re.search(r"const SIZE:\s+u64 = usize_to_u64\((.*?)\);", src, re.S)
+    sizes = {"u64": 8, "u8": 1, "usize": 8, "u32": 4, "u16": 2}
+    hdr_n = sum(sizes[t] for t in re.findall(r"size_of::<(\w+)>", m.group(1))) if m else None
+    fb = [b.parse() for n_, bs in E.prog.bodies.items()
+          if re.search(r"utils::archive::<impl at src/utils/archive\.rs:[^>]*>::fits$", n_) for b in bs]
+    asserts = len(re.findall(r"assert!\(empty\.size >= ObjectHeader::SIZE\)", src))
+    if len(fb) != 1 or not hdr_n:
+        res.inconclusive.append("fits contract: Archive::fits / ObjectHeader::SIZE not found")
+        return 0
+    if asserts == 0:
+        return 0          # nothing asserts on the remainder any more: no panic to guard against
+    hdr = z3.BitVecVal(hdr_n, 64)
+    e, o = z3.BitVec("empty_size_on_disk", 64), z3.BitVec("new_object_size", 64)
+    paths = E.explore(fb[0], max_visits=2, arg_values={"_1": {(): e}, "_2": {(): o}}, consts={r"ObjectHeader::SIZE": hdr})
+    res.functions.append("utils::archive::Archive::<Meta>::fits against publish_replace's remainder assertion, any on-disk size (MIR)")
+    n = 0
+    for i, p in enumerate(paths):
+        if p.kind != "return":
+            continue
+        r = p.ret.get(())
+        if not mir.is_z(r):
+            res.inconclusive.append("fits contract: result not symbolic")
+            continue
+        n += 1
+        # the new object's size is page-rounded and sane; the empty size is whatever the file says
+        pre = z3.And(o != 0, z3.URem(o, 256) == 0, z3.ULT(o, 1 << 48), z3.ULT(e, 1 << 62))
+        bad = z3.And(pre, r, z3.UGT(e, o), z3.ULT(e - o, hdr))
+        mdl = E.model(p.cond, bad)
+        if mdl is not None and "fits" not in reported:
+            reported.add("fits")
+            ev, ov = mdl.eval(e, True).as_long(), mdl.eval(o, True).as_long()
+            fn = mprop.write_cex(res, "fits_contract_%d" % i, p, E,
+                                 "fits(%d, %d) holds although the remainder of %d bytes cannot hold an object header (%d bytes): "
+                                 "publish_replace's assert!(empty.size >= ObjectHeader::SIZE) panics" % (ev, ov, ev - ov, hdr_n), mdl)
+            res.violation("mir:archive:corrupt-empty-size-panics",
+                          "an empty object whose size field is corrupt (e.g. %d) is accepted by Archive::fits for an object of %d "
+                          "bytes and makes publish_replace panic on its remainder assertion" % (ev, ov), fn)
+    return n
 
 
 def check_mmap_kernel(res, E, reported):
